@@ -10,7 +10,9 @@ def parseFormat : String → Option Format
   | "u" => some .unspecified | "j" => some .json | "t" => some .text | "x" => some .invalid | _ => none
 
 def harnessSigner (fail : Bool) (b : Bytes) : Option Bytes :=
-  if fail then none else some (str s!"sum{b.foldl (· + ·) 0 % 65521}len{b.length}")
+  -- the signature is an arbitrary string: a control character, DEL, a quote, a backslash, HTML characters
+  -- in front of the checksum (the same bytes as the Go harness's signer)
+  if fail then none else some ([115, 31, 127, 34, 92, 60, 62, 38] ++ str s!"sum{b.foldl (· + ·) 0 % 65521}len{b.length}")
 
 def parsePredCE : String → Option Evl.CloudEvents.Pred
   | "absent" => some .absent | "keep" => some (.ret true) | "drop" => some (.ret false) | "err" => some .err | "errkeep" => some .err | _ => none
